@@ -1,17 +1,39 @@
 """C05 — rename rewrites exactly the references and preserves behaviour.
 
-On programs of the C03 scope-tree language (executable, every binding assigns a unique value,
-every use records what it read):
+Single-module streams, on programs of the C03 scope-tree language (executable, every binding
+assigns a unique value, every use records what it read):
   refs      Script.get_references from every occurrence vs the Coq specification refs_ids
             (same identifier AND same variable by Python's scoping: py_scope/bind_scope)
+  predict   the same answer vs refs_j, a Gallina transcription of find_references itself
+            (_find_defining_names + the candidate scan with the parked-map merge = the proved
+            merge_loop of Model/C05_Rename.v, over C03's jedi_goto): on the unchanged tree the
+            two agree on every occurrence; a deviation from the specification is accepted as a
+            known finding ONLY if it is exactly the set this transcription predicts
   partition asking from every reported occurrence yields the same set
   text      Script.rename(new): changed text vs the Coq model rename_text on the file's leaves
             with exactly the reported references selected; renaming back restores the bytes
   run       old and renamed program are executed: same trace
+Program families: the C03 enumeration/random programs (as before) and, since round 2, the
+self-rebinding family: statements `x = [v for v in x]`, `x = [v for v in y if x]`,
+`x = {1: x for v in x}`, ... whose right-hand side reads the PREVIOUS binding of x (a parameter,
+a module global read in a class body, an enclosing function's local, an earlier assignment),
+directed over every (form, context) pair and mixed randomly into the random programs.
+
+Multi-module stream (oracle only; the Coq language is single-module), since round 2:
+  mm        small generated projects (2-4 modules: from-imports, `import m` + `m.name`,
+            re-export chains, try/except ImportError and if/else alternatives importing the same
+            name from two modules, uses inside and after the alternatives, functions returning
+            the name, aliases, shadowing parameters/locals) with an explicit jedi.Project:
+            get_references from EVERY occurrence must give the same set (partition), equal to
+            the component computed by the generator (union-find over import links), containing
+            every use site that read that definition's sentinel at run time; rename to a fresh
+            name: exactly the reported tokens change, old and new project are executed in
+            subprocesses (same trace), renaming back restores every file byte for byte.
 """
 import json
 import os
 import itertools
+import subprocess
 
 import common
 import c03
@@ -20,7 +42,8 @@ from common import g_str, g_list, g_N, g_bool
 IMPORTS = 'From JV Require Import Base.Str Model.C03_Resolve Model.C05_Rename.\n'
 FP = [('jedi/api/refactoring/__init__.py', 'rename'), ('jedi/inference/references.py', 'find_references'),
       ('jedi/inference/references.py', '_find_defining_names'), ('jedi/inference/references.py', '_find_names'),
-      ('jedi/inference/references.py', '_add_names_in_same_context'), ('jedi/inference/references.py', '_find_global_variables')]
+      ('jedi/inference/references.py', '_add_names_in_same_context'), ('jedi/inference/references.py', '_find_global_variables'),
+      ('jedi/inference/names.py', 'AbstractTreeName.goto')]
 
 DEFS = c03.DEFS + '''
 Fixpoint sorted_ins (a : N) (l : list N) : list N :=
@@ -44,14 +67,49 @@ Definition param_rebound (p : program) (x : N) (params : list N) : bool :=
   existsb (fun a => N.eqb (o_name (fst a)) x && memN (o_id (fst a)) params &&
                     existsb (fun b => N.eqb (o_name (fst b)) x && role_eqb (o_role (fst b)) Bind &&
                                       negb (memN (o_id (fst b)) params) && N.eqb (owner_of b) (owner_of a)) all) all.
-(* program, parameter ids, occurrence id, identifier, observed reference ids (sorted) ->
+
+(* ---- find_references as written (jedi/inference/references.py), over C03's jedi_goto ----
+   name.goto(): a definition answers itself; anything else is looked up (jedi_goto) *)
+Definition goto_j (p : program) (oc : occ * chain) : list N :=
+  match o_role (fst oc) with
+  | Bind => [o_id (fst oc)]
+  | _ => map o_id (jedi_goto p (snd oc) (fst oc))
+  end.
+(* _find_names: the name and what goto gives *)
+Definition fn_j (p : program) (oc : occ * chain) : list N := union [o_id (fst oc)] (goto_j p oc).
+(* _add_names_in_same_context: every definition of x in the context that holds the name *)
+Definition frame_binds (x : N) (c : chain) : list N :=
+  match c with f :: _ => map o_id (filter (is Bind x) (f_occs f)) | [] => [] end.
+Definition ctx_binds (p : program) (x n : N) : list N :=
+  match find_occ n (occs_of p) with Some (_, c) => frame_binds x c | None => [] end.
+(* _find_defining_names: _find_names + every `global x` of the module with the definitions of x
+   next to it + same-context definitions of every non-parameter name found so far *)
+Definition defining_j (p : program) (params : list N) (oc : occ * chain) : list N :=
+  let x := o_name (fst oc) in
+  let f0 := fn_j p oc in
+  let gl := flat_map (fun d => if is DeclG x (fst d) then o_id (fst d) :: frame_binds x (snd d) else []) (occs_of p) in
+  let f1 := union gl f0 in
+  fold_left (fun acc n => if memN n params then acc else union (ctx_binds p x n) acc) f1 f1.
+(* the scan over all same-spelled tokens in textual order `ord`, merged by merge_loop *)
+Definition refs_j (p : program) (params ord : list N) (id : N) : list N :=
+  match find_occ id (occs_of p) with
+  | None => []
+  | Some oc =>
+      let x := o_name (fst oc) in
+      let cands := flat_map (fun i => match find_occ i (occs_of p) with
+                                      | Some t => if N.eqb (o_name (fst t)) x then [fn_j p t] else []
+                                      | None => [] end) ord in
+      find_refs (defining_j p params oc) cands
+  end.
+
+(* program, parameter ids, ids in textual order, occurrence id, identifier, observed reference ids (sorted) ->
    [identifier inside the C03 fragment; the variable has a binding; observed = specification;
-    late-bound use of the identifier; rebound parameter] *)
-Definition chk_refs (c : program * list N * N * N * list N) : list N :=
-  let '(p, params, i, x, obs) := c in
+    late-bound use of the identifier; rebound parameter; observed = transcription of find_references] *)
+Definition chk_refs (c : program * list N * list N * N * N * list N) : list N :=
+  let '(p, params, ord, i, x, obs) := c in
   let spec := refs_ids p i in
   [b2n (name_in_fragment p x); b2n (has_bind p spec); b2n (nl_eqb (sortN spec) obs);
-   b2n (late_bound p x); b2n (param_rebound p x params)].
+   b2n (late_bound p x); b2n (param_rebound p x params); b2n (nl_eqb (sortN (refs_j p params ord i)) obs)].
 Definition mkleaf (pv : str * str * bool) : leaf :=
   let '(p, v, s) := pv in {| l_prefix := p; l_value := v; l_sel := s |}.
 (* leaves (prefix, value, selected), new name, observed new text, old name *)
@@ -62,6 +120,223 @@ Definition chk_text (c : list (str * str * bool) * str * str * str) : bool :=
 '''
 
 NEW = 'zq9'
+IDS = dict(c03.IDS, w=4)
+
+
+# ------------------------------------------------------------------ the self-rebinding family
+# forms of `x = <value that reads x>`; y is a second identifier
+RB_FORMS = ('iter', 'if', 'iterif', 'dict', 'elem', 'for2', 'nested', 'plain', 'lam')
+
+
+class Printer2(c03.Printer):
+    """The C03 printer with iterable (1-tuple) values and the statements ('rb', form, x, y).
+    Occurrence ids follow evaluation order, not text order: the names read by the right-hand
+    side of an assignment get smaller ids than its target (Python evaluates them first and jedi
+    looks them up from the start of the statement), which is what the model's o_id comparisons
+    (bound_before, visible) mean."""
+
+    def stmt(self, st, scope, indent):
+        k = st[0]
+        if k == 'bind':
+            o = self.occ(st[1], 'bind', scope, 'assign')
+            self.emit(indent, [(st[1], o), ' = (%d,)' % o.oid])
+        elif k == 'def':
+            _, fname, params, body = st
+            inner = self.new_scope('def', scope)
+            parts = ['def %s(' % fname]
+            saved, self.in_loop = self.in_loop, 0
+            for i, p in enumerate(params):
+                o = self.occ(p, 'bind', inner, 'param')
+                if i:
+                    parts.append(', ')
+                parts += [(p, o), '=(%d,)' % o.oid]
+            parts.append('):')
+            self.emit(indent, parts)
+            self.body(body, inner, indent + 4)
+            self.in_loop = saved
+            self.emit(indent, ['%s()' % fname])
+            return ('call', fname, indent)
+        elif k == 'comp':
+            _, x, var = st
+            inner = self.new_scope('comp', scope)
+            ou = self.occ(x, 'use', inner)
+            ov = self.occ(var, 'bind', inner, 'compfor')
+            self.emit(indent, ['try: [_r.append((%d, ' % ou.oid, (x, ou), ')) for ', (var, ov), ' in ((%d,),)]' % ov.oid])
+            self.emit(indent, ['except NameError: pass'])
+        elif k == 'for':
+            _, var, body = st
+            o = self.occ(var, 'bind', scope, 'for')
+            self.emit(indent, ['for ', (var, o), ' in ((%d,), (%d,)):' % (o.oid, o.oid)])
+            self.in_loop += 1
+            self.body(body, scope, indent + 4)
+            self.in_loop -= 1
+        elif k == 'rb':
+            self.rebind(st[1], st[2], st[3], scope, indent)
+        else:
+            return super().stmt(st, scope, indent)
+
+    def rebind(self, form, x, y, scope, indent):
+        use, bind, sub = (lambda n, s: self.occ(n, 'use', s)), (lambda n, s, h: self.occ(n, 'bind', s, h)), self.new_scope
+        if form == 'plain':                      # x = x
+            u = use(x, scope)
+            b = bind(x, scope, 'assign')
+            parts = [(x, b), ' = ', (x, u)]
+        elif form == 'lam':                      # x = (lambda: x)()
+            inner = sub('lam', scope)
+            u = use(x, inner)
+            b = bind(x, scope, 'assign')
+            parts = [(x, b), ' = (lambda: ', (x, u), ')()']
+        elif form == 'iter':                     # x = [v for v in x]
+            u = use(x, scope)
+            inner = sub('comp', scope)
+            bv = bind('v', inner, 'compfor')
+            uv = use('v', inner)
+            b = bind(x, scope, 'assign')
+            parts = [(x, b), ' = [', ('v', uv), ' for ', ('v', bv), ' in ', (x, u), ']']
+        elif form == 'if':                       # x = [v for v in y if x]
+            uy = use(y, scope)
+            inner = sub('comp', scope)
+            bv = bind('v', inner, 'compfor')
+            u = use(x, inner)
+            uv = use('v', inner)
+            b = bind(x, scope, 'assign')
+            parts = [(x, b), ' = [', ('v', uv), ' for ', ('v', bv), ' in ', (y, uy), ' if ', (x, u), ']']
+        elif form == 'iterif':                   # x = [v for v in x if x]
+            u1 = use(x, scope)
+            inner = sub('comp', scope)
+            bv = bind('v', inner, 'compfor')
+            u2 = use(x, inner)
+            uv = use('v', inner)
+            b = bind(x, scope, 'assign')
+            parts = [(x, b), ' = [', ('v', uv), ' for ', ('v', bv), ' in ', (x, u1), ' if ', (x, u2), ']']
+        elif form == 'dict':                     # x = {1: x for v in x}
+            u1 = use(x, scope)
+            inner = sub('comp', scope)
+            bv = bind('v', inner, 'compfor')
+            u2 = use(x, inner)
+            b = bind(x, scope, 'assign')
+            parts = [(x, b), ' = {1: ', (x, u2), ' for ', ('v', bv), ' in ', (x, u1), '}']
+        elif form == 'elem':                     # x = [x for v in y]
+            uy = use(y, scope)
+            inner = sub('comp', scope)
+            bv = bind('v', inner, 'compfor')
+            u = use(x, inner)
+            b = bind(x, scope, 'assign')
+            parts = [(x, b), ' = [', (x, u), ' for ', ('v', bv), ' in ', (y, uy), ']']
+        elif form == 'for2':                     # x = [v for v in y for w in x]
+            uy = use(y, scope)
+            inner = sub('comp', scope)
+            bv = bind('v', inner, 'compfor')
+            u = use(x, inner)
+            bw = bind('w', inner, 'compfor')
+            uv = use('v', inner)
+            b = bind(x, scope, 'assign')
+            parts = [(x, b), ' = [', ('v', uv), ' for ', ('v', bv), ' in ', (y, uy), ' for ', ('w', bw), ' in ', (x, u), ']']
+        elif form == 'nested':                   # x = [[v for v in x] for w in y]
+            uy = use(y, scope)
+            c1 = sub('comp', scope)
+            bw = bind('w', c1, 'compfor')
+            u = use(x, c1)
+            c2 = sub('comp', c1)
+            bv = bind('v', c2, 'compfor')
+            uv = use('v', c2)
+            b = bind(x, scope, 'assign')
+            parts = [(x, b), ' = [[', ('v', uv), ' for ', ('v', bv), ' in ', (x, u), '] for ', ('w', bw), ' in ', (y, uy), ']']
+        else:
+            raise ValueError(form)
+        self.emit(indent, parts)
+
+
+def build2(prog):
+    p = Printer2()
+    mod = p.new_scope('module', None)
+    p.lines.append('_r = []')
+    calls = []
+    for st in prog:
+        r = p.stmt(st, mod, 0)
+        if r:
+            calls.append(r)
+    for _, fname, indent in calls:
+        p.emit(indent, ['%s()' % fname])
+    return p, '\n'.join(p.lines) + '\n'
+
+
+def g_prog2(scope):
+    """like c03.g_prog; items are ordered by occurrence id (evaluation order)"""
+    parts = []
+    for it in scope.items:
+        if isinstance(it, c03.Occ):
+            c = {'bind': 'B', 'use': 'U', 'declg': 'G', 'decln': 'NL'}[it.role]
+            parts.append('%s %d %d' % (c, it.oid, IDS[it.name]))
+        else:
+            k = {'def': 'Def', 'lam': 'Lam', 'comp': 'Comp', 'class': 'Class'}[it.kind]
+            parts.append('Sub %s %d %s' % (k, it.sid, g_prog2(it)))
+    return '[' + '; '.join(parts) + ']' if parts else '(@nil item)'
+
+
+def rebind_family():
+    """every form in every context in which the previous binding of x lives somewhere specific"""
+    x, y = 'a', 'b'
+    out = []
+    for form in RB_FORMS:
+        rb = ('rb', form, x, y)
+        use = ('use', x)
+        ctxs = [
+            # previous binding = parameter
+            [('def', 'f1', [x, y], [rb, use])],
+            [('def', 'f1', [x, y], [use, rb, use, ('rb', 'iter' if form != 'iter' else 'if', x, y), use])],
+            # previous binding = module global read in the class body that shadows it
+            [('bind', x), ('bind', y), ('class', 'C1', [rb, use]), use],
+            [('bind', x), ('bind', y), ('def', 'f1', [], [('class', 'C1', [rb, use])]), use],
+            # ... = parameter of the function around the class (LOAD_NAME goes to the module instead)
+            [('bind', x), ('bind', y), ('def', 'f1', [x, y], [('class', 'C1', [rb, use]), use]), use],
+            # previous binding = earlier assignment in the same scope
+            [('bind', x), ('bind', y), rb, use],
+            [('def', 'f1', [], [('bind', x), ('bind', y), rb, use])],
+            # no previous binding in the function: the right-hand side is a late-bound local
+            [('bind', x), ('bind', y), ('def', 'f1', [], [rb, use]), use],
+            # method parameter, class attribute of the same name next to it
+            [('bind', x), ('bind', y), ('class', 'C1', [('bind', x), ('def', 'm1', [x, y], [rb, use]), use])],
+            # loop target
+            [('bind', y), ('for', x, [rb, use]), use],
+        ]
+        out += ctxs
+    return out
+
+
+def rand_body2(rng, depth, maxlen, ids, counter):
+    """c03.rand_body with self-rebinding statements mixed in"""
+    out = []
+    for _ in range(rng.randint(1, maxlen)):
+        x = rng.choice(ids)
+        r = rng.random()
+        if depth > 0 and r < 0.30:
+            counter[0] += 1
+            k = rng.choice(['def', 'defp', 'defp', 'class', 'class', 'for'])
+            b = rand_body2(rng, depth - 1, max(1, maxlen - 1), ids, counter)
+            if k == 'def':
+                out.append(('def', 'f%d' % counter[0], [], b))
+            elif k == 'defp':
+                out.append(('def', 'f%d' % counter[0], rng.sample(ids, rng.randint(1, len(ids))), b))
+            elif k == 'class':
+                out.append(('class', 'C%d' % counter[0], b))
+            else:
+                out.append(('for', x, b))
+        elif r < 0.46:
+            out.append(('bind', x))
+        elif r < 0.66:
+            out.append(('use', x))
+        elif r < 0.70:
+            out.append(('lam', x))
+        elif r < 0.74:
+            out.append(('comp', x, rng.choice(ids + ['v'])))
+        elif r < 0.97:
+            out.append(('rb', rng.choice(RB_FORMS), x, rng.choice([i for i in ids if i != x] or ids)))
+        elif r < 0.985:
+            out.append(('global', x))
+        else:
+            out.append(('nonlocal', x))
+    return out
 
 
 def run_trace(src):
@@ -75,11 +350,17 @@ def run_trace(src):
     return g.get('_r', [])
 
 
-def _task(prog):
+def _task(item):
     import jedi
     import parso
+    fam, prog = item
     try:
-        p, src = c03.build(prog)
+        if fam == 'c03':
+            p, src = c03.build(prog)
+            gprog = c03.g_prog(p.scopes[0])
+        else:
+            p, src = build2(prog)
+            gprog = g_prog2(p.scopes[0])
         compile(src, '<prog>', 'exec')
     except SyntaxError:
         return dict(skip='syntax')
@@ -87,8 +368,10 @@ def _task(prog):
         return dict(skip=repr(e))
     trace = run_trace(src)
     pos2occ = {(o.line, o.col): o for o in p.occs}
-    out = dict(src=src, gprog=c03.g_prog(p.scopes[0]), occs=[], names={},
-               params=[o.oid for o in p.occs if o.how == 'param'])
+    out = dict(src=src, gprog=gprog, occs=[], names={}, fam=fam,
+               params=[o.oid for o in p.occs if o.how == 'param'],
+               order=[o.oid for o in sorted(p.occs, key=lambda o: (o.line, o.col))],
+               aborted=bool(trace and isinstance(trace[-1], tuple) and trace[-1][0] == 'EXC'))
     script = jedi.Script(src)
     cache = {}
     backs = []
@@ -115,7 +398,7 @@ def _task(prog):
         leaves.append((leaf.prefix, leaf.value, leaf.start_pos))
         leaf = leaf.get_next_leaf()
     for o in p.occs:
-        if o.name == 'v':
+        if o.name in ('v', 'w'):
             continue
         rec = dict(id=o.oid, name=o.name)
         r = refs_from(o)
@@ -151,8 +434,10 @@ def _task(prog):
     # and thereby invalidates the tree of the Script used above
     for rec, o, new_code in backs:
         try:
+            # the start token keeps its line; its column moves by the renamed tokens before it
+            sel_before = sum(1 for q in p.occs if q.oid in set(rec['refs']) and q.line == o.line and q.col < o.col)
             s2 = jedi.Script(new_code)
-            back = s2.rename(o.line, o.col, new_name=o.name).get_changed_files()
+            back = s2.rename(o.line, o.col + sel_before * (len(NEW) - len(o.name)), new_name=o.name).get_changed_files()
             rec['text']['back'] = back[None].get_new_code() if None in back else new_code
         except Exception as e:
             rec['text']['back_exc'] = common.exc_sig(e)
@@ -164,33 +449,455 @@ def g_leaves(ls):
     return g_list(ls, lambda t: '(%s, %s, %s)' % (g_str(t[0]), g_str(t[1]), g_bool(t[2])), 'str * str * bool')
 
 
+# ------------------------------------------------------------------ multi-module projects
+MODS = ['qma', 'qmb', 'qmc', 'qmd']
+MM_NEW = 'zq9fresh'
+DRIVER = r'''
+import importlib, json, sys
+sys.path.insert(0, '.')
+out = []
+for m in sys.argv[1:]:
+    try:
+        mod = importlib.import_module(m)
+        out.append([m, 'ok', list(getattr(mod, '_r', []))])
+    except BaseException as e:
+        out.append([m, type(e).__name__, []])
+print(json.dumps(out))
+'''
+
+
+class Proj:
+    """files as lists of lines built from parts; a part (text, var) registers a token of the
+    focus identifier that belongs to variable `var`; variables are merged by import links"""
+
+    def __init__(self, name):
+        self.name = name
+        self.lines = {}
+        self.toks = []          # dict(mod, line, col, var, site)
+        self.parent = {}
+        self.flags = set()
+        self.sentinel = {}      # value -> defining token index
+        self.sid = 0
+
+    def find(self, v):
+        self.parent.setdefault(v, v)
+        while self.parent[v] != v:
+            self.parent[v] = self.parent[self.parent[v]]
+            v = self.parent[v]
+        return v
+
+    def link(self, a, b):
+        self.parent[self.find(a)] = self.find(b)
+
+    def emit(self, mod, parts):
+        ls = self.lines.setdefault(mod, [])
+        line = ''
+        for p in parts:
+            if isinstance(p, tuple):
+                text, var = p[0], p[1]
+                self.find(var)
+                self.toks.append(dict(mod=mod, line=len(ls) + 1, col=len(line), var=var, site=p[2] if len(p) > 2 else None))
+                line += text
+            else:
+                line += p
+        ls.append(line)
+
+    def files(self):
+        return {m + '.py': '\n'.join(ls) + '\n' for m, ls in self.lines.items()}
+
+
+def gen_project(rng, directed=None):
+    """one project; `directed` = (alt form, use inside first branch, use inside second branch,
+    joining use, start module order) for the systematic family, None = random"""
+    X = rng.choice(['value', 'item', 'conf'])
+    kind = rng.choice(['var', 'var', 'func'])
+    P = Proj(X)
+    P.kind = kind
+    call = '()' if kind == 'func' else ''
+    nmod = rng.randint(2, 4) if directed is None else directed.get('nmod', 3)
+    mods = MODS[:nmod]
+    order = list(mods)
+    rng.shuffle(order)
+    nsrc = 1 if nmod == 2 else rng.choice([1, 2, 2])
+    if directed is not None:
+        nsrc = 2
+        order = directed['order']
+    sources, consumers = order[:nsrc], order[nsrc:]
+    g = lambda m: ('g', m)
+    exporters = []           # modules whose global X can be imported from
+
+    def site():
+        P.sid += 1
+        return P.sid
+
+    def use_stmts(m, expr_parts, n, indent=''):
+        """n recorded reads at module level of m"""
+        for _ in range(n):
+            s = site()
+            P.emit(m, [indent + '_r.append((%d, ' % s] + expr_parts(s) + ['))'])
+
+    for i, s in enumerate(sources):
+        P.emit(s, ['_r = []'])
+        val = 101 + i
+        if kind == 'var':
+            P.emit(s, [(X, g(s)), ' = %d' % val])
+        else:
+            P.emit(s, ['def ', (X, g(s)), '():'])
+            P.emit(s, ['    return %d' % val])
+        P.sentinel[val] = len(P.toks) - 1
+        if rng.random() < 0.4:
+            use_stmts(s, lambda sid: [(X, g(s), sid), call], 1)
+        if rng.random() < 0.3:
+            P.emit(s, ['def own_%s():' % s])
+            P.emit(s, ['    return ', (X, g(s)), call])
+        exporters.append(s)
+
+    for ci, m in enumerate(consumers):
+        P.emit(m, ['_r = []'])
+        form = rng.choice(['from', 'from', 'mod', 'try', 'try', 'try', 'if', 'if', 'alias']) if directed is None else directed['form']
+        s1 = rng.choice(exporters)
+        others = [e for e in exporters if e != s1]
+        plain = lambda sid: [(X, g(m), sid), call]
+        if form in ('try', 'if') and not others and rng.random() < 0.6:
+            form = 'from'
+        if form == 'from':
+            P.emit(m, ['from %s import ' % s1, (X, g(m))])
+            P.link(g(m), g(s1))
+            expr = plain
+            exporters.append(m)
+        elif form == 'mod':
+            P.emit(m, ['import %s' % s1])
+            expr = lambda sid: ['%s.' % s1, (X, g(s1), sid), call]
+        elif form == 'alias':
+            P.emit(m, ['from %s import ' % s1, (X, g(s1)), ' as other_nm'])
+            expr = lambda sid: ['other_nm', call]
+        else:
+            # two alternatives binding the same module variable
+            if others:
+                s2 = rng.choice(others)
+                alt = s2
+                if directed is None and rng.random() < 0.25:
+                    alt = 'qmissing'        # no such module: ImportError at run time, nothing to link
+            else:
+                s2, alt = None, 'qmissing'
+            in1 = rng.random() < 0.6 if directed is None else directed['in1']
+            in2 = rng.random() < 0.4 if directed is None else directed['in2']
+            join = rng.random() < 0.85 if directed is None else directed['join']
+            if form == 'try':
+                P.emit(m, ['try:'])
+                P.emit(m, ['    from %s import ' % alt, (X, g(m))])
+                if in1:
+                    use_stmts(m, plain, 1, '    ')
+                P.emit(m, ['except ImportError:'])
+                P.emit(m, ['    from %s import ' % s1, (X, g(m))])
+                if in2:
+                    use_stmts(m, plain, 1, '    ')
+            else:
+                decided = rng.random() < 0.2 if directed is None else directed.get('decided', False)
+                truth = rng.random() < 0.5
+                if decided:
+                    P.flags.add('decided-branch')
+                    P.emit(m, ['flag = %d' % (1 if truth else 0)])
+                else:
+                    P.emit(m, ['flag = %s' % ('[1]' if truth else '[]')])
+                P.emit(m, ['if flag:'])
+                P.emit(m, ['    from %s import ' % alt, (X, g(m))])
+                if in1:
+                    use_stmts(m, plain, 1, '    ')
+                P.emit(m, ['else:'])
+                P.emit(m, ['    from %s import ' % s1, (X, g(m))])
+                if in2:
+                    use_stmts(m, plain, 1, '    ')
+            P.link(g(m), g(s1))
+            if alt != 'qmissing':
+                P.link(g(m), g(alt))
+            if not join:
+                P.flags.add('alternatives-without-joining-use')
+            expr = plain if join else None
+            exporters.append(m)
+        if expr is not None:
+            # reads after the import(s): module level, inside a function, both
+            shape = rng.choice(['mod', 'fn', 'both', 'fn']) if (directed is None or 'shape' not in directed) else directed['shape']
+            if form in ('try', 'if') or rng.random() < 0.85:
+                if shape in ('fn', 'both'):
+                    s = site()
+                    P.emit(m, ['def show_%s():' % m])
+                    P.emit(m, ['    return '] + expr(s))
+                    P.emit(m, ['_r.append((%d, show_%s()))' % (s, m)])
+                if shape in ('mod', 'both'):
+                    use_stmts(m, expr, 1)
+        # a parameter / a local of the same spelling: different variables
+        r = rng.random()
+        if r < 0.25:
+            P.emit(m, ['def shade_%s(' % m, (X, ('p', m)), '):'])
+            P.emit(m, ['    return ', (X, ('p', m))])
+            P.emit(m, ['_r.append((%d, shade_%s(7)))' % (site(), m)])
+        elif r < 0.4:
+            P.emit(m, ['def local_%s():' % m])
+            P.emit(m, ['    ', (X, ('l', m)), ' = 8'])
+            P.emit(m, ['    return ', (X, ('l', m))])
+            P.emit(m, ['_r.append((%d, local_%s()))' % (site(), m)])
+    return P
+
+
+def mm_directed():
+    """try/if alternatives x reads inside either branch x joining read x module scan orders"""
+    out = []
+    for form in ('try', 'if'):
+        for in1, in2 in ((1, 0), (0, 1), (1, 1), (0, 0)):
+            for shape in ('fn', 'mod'):
+                for order in (['qma', 'qmc', 'qmb'], ['qmc', 'qma', 'qmb'], ['qmb', 'qmc', 'qma']):
+                    out.append(dict(form=form, in1=bool(in1), in2=bool(in2), join=True, shape=shape, order=order, nmod=3))
+    return out
+
+
+def _mm_run(d, mods):
+    p = subprocess.run([common.PY, '-S', os.path.join(os.path.dirname(d), 'driver.py')] + mods, cwd=d, capture_output=True,
+                       text=True, timeout=120, env={'PATH': os.environ.get('PATH', ''), 'PYTHONDONTWRITEBYTECODE': '1'})
+    try:
+        return json.loads(p.stdout)
+    except Exception:
+        return ['unparsable', p.stdout[-200:], p.stderr[-300:]]
+
+
+def _mm_write(d, files):
+    os.makedirs(d, exist_ok=True)
+    for k, v in files.items():
+        with open(os.path.join(d, k), 'w', newline='') as f:
+            f.write(v)
+
+
+def _mm_task(arg):
+    import jedi
+    import pathlib
+    base, idx, P = arg
+    root = os.path.join(base, 'p%d' % idx)
+    files = P.files()
+    mods = sorted(m[:-3] for m in files)
+    d0 = os.path.join(root, 'o')
+    _mm_write(d0, files)
+    with open(os.path.join(root, 'driver.py'), 'w') as f:
+        f.write(DRIVER)
+    X = P.name
+    out = dict(files=files, name=X, flags=sorted(P.flags), toks=[], renames=[], kind=P.kind)
+    trace0 = _mm_run(d0, mods)
+    out['trace'] = trace0
+    key = lambda t: (t['mod'] + '.py', t['line'], t['col'])
+    comp = {}
+    for t in P.toks:
+        comp.setdefault(P.find(t['var']), []).append(key(t))
+    # which definition did every recorded site read
+    site_val = {}
+    for m, status, rs in trace0:
+        for s, v in rs:
+            site_val.setdefault(s, set()).add(v)
+    proj = jedi.Project(d0)
+    scripts = {}
+
+    def script_for(d, proj, fn, cache):
+        if fn not in cache:
+            path = os.path.join(d, fn)
+            with open(path, newline='') as f:
+                cache[fn] = jedi.Script(f.read(), path=path, project=proj)
+        return cache[fn]
+
+    def canon(res, d):
+        r = []
+        for x in res:
+            mp = x.module_path
+            rel = os.path.relpath(str(mp), d) if mp is not None else None
+            r.append((rel, x.line, x.column))
+        return sorted(set(r))
+
+    seen = {}
+    for ti, t in enumerate(P.toks):
+        rec = dict(tok=key(t), expected=sorted(comp[P.find(t['var'])]))
+        try:
+            s = script_for(d0, proj, t['mod'] + '.py', scripts)
+            rec['refs'] = canon(s.get_references(t['line'], t['col']), d0)
+        except Exception as e:
+            rec['exc'] = common.exc_sig(e)
+            out['toks'].append(rec)
+            continue
+        out['toks'].append(rec)
+        k = tuple(rec['refs'])
+        if k in seen:
+            continue
+        seen[k] = ti
+        # rename once per distinct reported set
+        ren = dict(tok=key(t), refs=rec['refs'])
+        out['renames'].append(ren)
+        try:
+            rf = s.rename(t['line'], t['col'], new_name=MM_NEW)
+            changed = {os.path.relpath(str(pth), d0): cf.get_new_code() for pth, cf in rf.get_changed_files().items()}
+            ren['file_renames'] = [(str(a), str(b)) for a, b in rf.get_renames()]
+        except Exception as e:
+            ren['exc'] = common.exc_sig(e)
+            continue
+        new_files = dict(files)
+        new_files.update(changed)
+        ren['new'] = {k2: v for k2, v in new_files.items() if v != files[k2]}
+        # exactly the reported tokens changed?  splice them by hand
+        want = {}
+        for fn, code in files.items():
+            ls = code.split('\n')
+            for (rf_, ln, col) in sorted([r for r in rec['refs'] if r[0] == fn], reverse=True):
+                row = ls[ln - 1]
+                if row[col:col + len(X)] != X:
+                    ren['not_a_token'] = (rf_, ln, col)
+                ls[ln - 1] = row[:col] + MM_NEW + row[col + len(X):]
+            want[fn] = '\n'.join(ls)
+        ren['exact'] = want == new_files
+        d1 = os.path.join(root, 'n%d' % ti)
+        _mm_write(d1, new_files)
+        ren['trace_new'] = _mm_run(d1, mods)
+        ren['trace_equal'] = ren['trace_new'] == trace0
+        # rename back in the rewritten project
+        try:
+            before = sum(1 for r in rec['refs'] if r[0] == t['mod'] + '.py' and r[1] == t['line'] and r[2] < t['col'])
+            proj1 = jedi.Project(d1)
+            s1 = script_for(d1, proj1, t['mod'] + '.py', {})
+            rb = s1.rename(t['line'], t['col'] + before * (len(MM_NEW) - len(X)), new_name=X)
+            back = dict(new_files)
+            back.update({os.path.relpath(str(pth), d1): cf.get_new_code() for pth, cf in rb.get_changed_files().items()})
+            ren['back_equal'] = back == files
+            if not ren['back_equal']:
+                ren['back'] = {k2: v for k2, v in back.items() if v != files.get(k2)}
+        except Exception as e:
+            ren['back_exc'] = common.exc_sig(e)
+    # run-time denotation: a site that read definition D's sentinel must be in the set asked from D
+    deno = []
+    by_tok = {tuple(r['tok']): r for r in out['toks']}
+    for t in P.toks:
+        if t['site'] is None:
+            continue
+        for v in site_val.get(t['site'], ()):
+            di = P.sentinel.get(v)
+            if di is None:
+                continue
+            dr = by_tok.get(key(P.toks[di]))
+            if dr is not None and 'refs' in dr and key(t) not in [tuple(r) for r in dr['refs']]:
+                deno.append(dict(site=key(t), definition=key(P.toks[di]), value=v))
+    out['denotes_missing'] = deno
+    return out
+
+
+def run_mm(ctx):
+    base = os.path.join(ctx.tmp, 'mm')
+    os.makedirs(base, exist_ok=True)
+    projs = []
+    directed = mm_directed()
+    ctx.rng.shuffle(directed)
+    for d in directed[:ctx.n(int(os.environ.get('C05_MMD', 30)), len(directed))]:
+        projs.append(gen_project(ctx.rng, d))
+    for _ in range(ctx.n(int(os.environ.get('C05_MM', 50)), 1500)):
+        projs.append(gen_project(ctx.rng))
+    results = common.pmap(_mm_task, [(base, i, P) for i, P in enumerate(projs)], chunksize=2)
+    stats = dict(projects=len(projs), tokens=0, renames=0, with_alternatives=0, flags={}, import_errors=0, sites_read=0)
+    for r in results:
+        fl = r['flags']
+        reason = fl[0] if fl else 'none'
+        for f in fl:
+            stats['flags'][f] = stats['flags'].get(f, 0) + 1
+        stats['with_alternatives'] += any(('try:' in c or 'if flag' in c) for c in r['files'].values())
+        stats['import_errors'] += sum(1 for m in r['trace'] if isinstance(m, list) and len(m) == 3 and m[1] != 'ok')
+        stats['sites_read'] += sum(len(m[2]) for m in r['trace'] if isinstance(m, list) and len(m) == 3)
+        where = dict(files=r['files'], name=r['name'])
+        if not (isinstance(r['trace'], list) and all(isinstance(m, list) and len(m) == 3 for m in r['trace'])):
+            raise RuntimeError('multi-module driver failed: %r' % (r['trace'],))
+        sets = {}
+        for t in r['toks']:
+            stats['tokens'] += 1
+            if 'exc' in t:
+                ctx.deviation(dict(stream='mm', exc=t['exc']['exc'], site=t['exc']['site']), dict(error=t['exc'], token=t['tok'], **where),
+                              'get_references raised in a multi-module project')
+                continue
+            ctx.count('mm-refs', (json.dumps(r['files'], sort_keys=True), tuple(t['tok'])), nontrivial=len(t['expected']) >= 2)
+            exp = [list(e) for e in t['expected']]
+            got = [list(e) for e in t['refs']]
+            if got != exp:
+                ctx.deviation(dict(stream='mm', cls='refs-differ-from-import-component', reason=reason),
+                              dict(token=t['tok'], reported=got, expected=exp, **where),
+                              'get_references from %r reports %r; the occurrences linked to it by scoping and imports are %r' % (t['tok'], got, exp))
+            sets.setdefault(json.dumps(exp), set()).add(json.dumps(got))
+        for exp, gots in sets.items():
+            if len(gots) > 1:
+                ctx.deviation(dict(stream='mm', cls='not-a-partition', reason=reason),
+                              dict(component=json.loads(exp), answers=[json.loads(g) for g in sorted(gots)], **where),
+                              'get_references gives %d different answers depending on the member asked' % len(gots))
+        for dm in r['denotes_missing']:
+            ctx.deviation(dict(stream='mm', cls='runtime-reader-not-a-reference', reason=reason), dict(**dm, **where),
+                          'the use at %r read the value of the definition at %r at run time but is not among its references' % (dm['site'], dm['definition']))
+        for ren in r['renames']:
+            stats['renames'] += 1
+            ctx.count('mm-rename', (json.dumps(r['files'], sort_keys=True), tuple(ren['tok'])), nontrivial=len(ren['refs']) >= 2)
+            w = dict(token=ren['tok'], references=ren['refs'], **where)
+            if 'exc' in ren:
+                ctx.deviation(dict(stream='mm', exc=ren['exc']['exc'], site=ren['exc']['site']), dict(error=ren['exc'], **w), 'rename raised')
+                continue
+            if ren.get('file_renames'):
+                ctx.deviation(dict(stream='mm', cls='unexpected-file-rename'), dict(renames=ren['file_renames'], **w),
+                              'rename of a variable announces file renames')
+            if not ren['exact']:
+                ctx.deviation(dict(stream='mm', cls='rename-not-exactly-the-references'), dict(new=ren['new'], **w),
+                              'rename changed something other than exactly the reported references')
+            if not ren['trace_equal']:
+                ctx.deviation(dict(stream='mm', cls='behaviour-changed', reason=reason), dict(new=ren['new'], old_trace=r['trace'], new_trace=ren['trace_new'], **w),
+                              'the renamed project does not behave like the original')
+            if 'back_exc' in ren:
+                ctx.deviation(dict(stream='mm', exc=ren['back_exc']['exc'], site=ren['back_exc']['site'], reason=reason), dict(error=ren['back_exc'], **w),
+                              'renaming back raised')
+            elif not ren['back_equal']:
+                ctx.deviation(dict(stream='mm', cls='roundtrip', reason=reason), dict(new=ren['new'], back=ren.get('back'), **w),
+                              'renaming to a fresh name and back does not restore the original files')
+    ctx.stat('multi_module', stats)
+    for r in results[:1]:
+        ctx.sample(dict(files=r['files'], name=r['name'], references=r['toks'][0].get('refs') if r['toks'] else None))
+
+
+# ------------------------------------------------------------------ the check
 def run(ctx):
     common.setup_jedi(os.path.join(ctx.tmp, 'cache'))
     ctx.proofs()
     ctx.cov['fingerprints'] = common.fingerprint(FP)
-    ctx.cov['rule'] = ('programs of the C03 scope-tree language (exhaustive small prefix + seeded random, as in C03); a case = one identifier occurrence '
-                       '(refs/partition) or one rename of one variable (text/run); non-trivial = the reference set has >= 2 members; distinct by (program, occurrence)')
-    ctx.assumptions += ['cross-module reference discovery and file/package renames are not part of the modelled language (single-module programs)',
+    ctx.cov['rule'] = ('programs of the C03 scope-tree language (exhaustive small prefix + seeded random, as in C03) plus the self-rebinding family '
+                       '(x = [.. for v in x] etc.: every form x every place of the previous binding, and random mixes); a case = one identifier occurrence '
+                       '(refs/predict/partition) or one rename of one variable (text/run); multi-module projects: a case = one token of the focus name '
+                       '(mm-refs) or one rename (mm-rename); non-trivial = the reference set has >= 2 members; distinct by (program, occurrence)')
+    ctx.assumptions += ['multi-module reference discovery is checked by oracles only (generator-computed import components, execution, round trip): the Coq language is single-module',
+                        'file/package renames (renaming a module) are not generated here',
                         'protocol names and names reached through strings/getattr do not occur in the generated programs']
+    run_mm(ctx)
     progs = list(itertools.islice(c03.enum_bodies(2, 2, ['a']), ctx.n(40000, 400000)))
     ctx.rng.shuffle(progs)
-    progs = progs[:ctx.n(int(os.environ.get("C05_N", 150)), 6000)]
+    progs = [('c03', p) for p in progs[:ctx.n(int(os.environ.get("C05_N", 150)), 6000)]]
     counter = [0]
     for _ in range(ctx.n(int(os.environ.get("C05_M", 120)), 4000)):
-        progs.append(c03.rand_body(ctx.rng, ctx.rng.randint(1, 4), ctx.rng.randint(2, 5), ['a', 'b'], counter))
+        progs.append(('c03', c03.rand_body(ctx.rng, ctx.rng.randint(1, 4), ctx.rng.randint(2, 5), ['a', 'b'], counter)))
+    fam = rebind_family()
+    if ctx.quick:
+        ctx.rng.shuffle(fam)
+        fam = fam[:int(os.environ.get("C05_F", 60))]
+    progs += [('rb', p) for p in fam]
+    for _ in range(ctx.n(int(os.environ.get("C05_R", 70)), 3000)):
+        progs.append(('rb', rand_body2(ctx.rng, ctx.rng.randint(1, 3), ctx.rng.randint(2, 5), ['a', 'b'], counter)))
     results = common.pmap(_task, progs, chunksize=8)
-    defs, rcases, rmeta, tcases, tmeta, fcases = [DEFS], [], [], [], [], []
-    stats = dict(programs=0, skipped=0, occurrences=0, renames=0, trace_changed=0)
+    defs, rcases, rmeta, tcases, tmeta = [DEFS], [], [], [], []
+    stats = dict(programs=0, skipped=0, occurrences=0, renames=0, trace_changed=0, rebind_programs=0, rebind_aborted=0)
     pi = 0
     for r in results:
         if 'skip' in r:
             stats['skipped'] += 1
             continue
         stats['programs'] += 1
+        if r['fam'] == 'rb':
+            stats['rebind_programs'] += 1
+            stats['rebind_aborted'] += r['aborted']
         name = 'p%d' % pi
         pi += 1
         defs.append('Definition %s : program := %s.' % (name, r['gprog']))
         defs.append('Definition %s_params : list N := %s.' % (name, g_list(r['params'], g_N, 'N')))
+        defs.append('Definition %s_ord : list N := %s.' % (name, g_list(r['order'], g_N, 'N')))
         for rec in r['occs']:
             stats['occurrences'] += 1
             where = dict(source=r['src'], occurrence=rec['id'], name=rec['name'])
@@ -199,8 +906,9 @@ def run(ctx):
                               'get_references raised')
                 continue
             ctx.count('refs', (r['src'], rec['id']), nontrivial=len(rec['refs']) >= 2)
-            rcases.append('(%s, %s_params, %d%%N, %d%%N, %s)' % (name, name, rec['id'], c03.IDS[rec['name']], g_list(rec['refs'], g_N, 'N')))
-            rmeta.append(dict(refs=rec['refs'], prog=name, partition=rec.get('partition'), **where))
+            rcases.append('(%s, %s_params, %s_ord, %d%%N, %d%%N, %s)' % (name, name, name, rec['id'], IDS[rec['name']], g_list(rec['refs'], g_N, 'N')))
+            rmeta.append(dict(refs=rec['refs'], prog=name, gprog=r['gprog'], params=r['params'], order=r['order'],
+                              partition=rec.get('partition'), **where))
             if 'rename_exc' in rec:
                 ctx.deviation(dict(stream='text', exc=rec['rename_exc']['exc'], site=rec['rename_exc']['site']),
                               dict(error=rec['rename_exc'], **where), 'rename raised')
@@ -212,36 +920,52 @@ def run(ctx):
                 tmeta.append(dict(idx=len(rmeta) - 1, new=t['new'], back=t.get('back'), back_exc=t.get('back_exc'),
                                   trace_equal=t['trace_equal'], renames=t['renames'], **where))
     ctx.stat('programs', stats)
-    # --- one Coq evaluation per occurrence: [inside the C03 fragment; variable has a binding; refs = spec]
-    flags, err = common.coq_eval_N_lists(IMPORTS, 'chk_refs', rcases, shard=800, defs='\n'.join(defs), timeout=2400)
+    # --- one Coq evaluation per occurrence
+    flags, err = common.coq_eval_N_lists(IMPORTS, 'chk_refs', rcases, shard=600, defs='\n'.join(defs), timeout=2400)
     if err:
         raise RuntimeError('coq evaluation failed (refs): ' + err)
     outside = {i for i, f in enumerate(flags) if not f[0]}
     unbound = {i for i, f in enumerate(flags) if not f[1]}
     failset = {i for i, f in enumerate(flags) if not f[2]}
+    unpredicted = {i for i, f in enumerate(flags) if not f[5]}
+    byocc = {(m['prog'], m['occurrence']): i for i, m in enumerate(rmeta)}
 
-    def reason(i):
+    def reason(i, also=()):
+        """the model-computed class of the identifier; a class is claimed only if the answer
+        (and the answers it is compared with) is exactly what the transcription of
+        find_references predicts"""
         f = flags[i]
-        return ('outside-c03-fragment' if not f[0] else 'late-bound-use' if f[3] else
-                'parameter-rebound' if f[4] else 'none')
+        cls = ('outside-c03-fragment' if not f[0] else 'late-bound-use' if f[3] else
+               'parameter-rebound' if f[4] else 'none')
+        if cls != 'none' and (i in unpredicted or any(j in unpredicted for j in also if j is not None)):
+            return 'not-the-predicted-answer(%s)' % cls
+        return cls
     stats['occurrences_of_unbound_names'] = len(unbound)
-    n_out = 0
+    stats['occurrences_outside_fragment'] = len(outside)
+    n_obl = 0
     for i, m in enumerate(rmeta):
-        infrag = i not in outside
-        n_out += (not infrag)
+        ctx.count('predict', (m['source'], m['occurrence']), nontrivial=len(m['refs']) >= 2)
+        if i in unpredicted and not (i in failset and i not in unbound):
+            # the transcription of find_references and the implementation disagree on an answer that
+            # satisfies the specification (or concerns a name bound nowhere)
+            n_obl += 1
+            if n_obl <= 6:
+                model = common.coq_show(IMPORTS, ['(refs_j (%s) %s %s %d%%N, refs_ids (%s) %d%%N)' % (
+                    m['gprog'], g_list(m['params'], g_N, 'N'), g_list(m['order'], g_N, 'N'), m['occurrence'], m['gprog'], m['occurrence'])], defs=DEFS)
+                ctx.violation('obligation', dict(what='correspondence refs_j (transcription of find_references over jedi_goto): model and implementation differ',
+                                                 input=dict(source=m['source'], occurrence=m['occurrence'], reported=m['refs']), model=model), nofail=True)
         if i in unbound:
             continue   # a name that is bound nowhere has no definition to collect references for
         if i in failset:
-            spec = None
-            ctx.deviation(dict(stream='refs', cls='refs-differ-from-python-variable', reason=reason(m['idx'] if 'idx' in m else i)),
-                          dict(source=m['source'], occurrence=m['occurrence'], name=m['name'], reported=m['refs'], spec=spec),
+            ctx.deviation(dict(stream='refs', cls='refs-differ-from-python-variable', reason=reason(i)),
+                          dict(source=m['source'], occurrence=m['occurrence'], name=m['name'], reported=m['refs']),
                           'get_references from occurrence #%d reports %r, which is not the set of occurrences of that variable' % (m['occurrence'], m['refs']))
         if m['partition']:
-            ctx.deviation(dict(stream='partition', cls='not-a-partition', reason=reason(m['idx'] if 'idx' in m else i)),
+            ctx.deviation(dict(stream='partition', cls='not-a-partition', reason=reason(i, [byocc.get((m['prog'], m['partition']['member']))])),
                           dict(source=m['source'], occurrence=m['occurrence'], reported=m['refs'], **m['partition']),
                           'get_references from #%d gives %r but from its member #%d gives %r' % (
                               m['occurrence'], m['refs'], m['partition']['member'], m['partition']['other']))
-    stats['occurrences_outside_fragment'] = n_out
+    stats['predicted_exactly'] = len(rmeta) - len(unpredicted)
     # --- rename text vs model, round trip, behaviour
     tf, err = common.coq_failing(IMPORTS, 'chk_text', tcases, shard=150, defs=DEFS, timeout=2400)
     if err:
@@ -250,7 +974,6 @@ def run(ctx):
     for k, m in enumerate(tmeta):
         if m['idx'] in unbound:
             continue
-        infrag = m['idx'] not in outside
         refs_ok = m['idx'] not in failset
         if k in tfs:
             ctx.deviation(dict(stream='text', cls='rename-not-exactly-the-references'),
@@ -260,7 +983,7 @@ def run(ctx):
             ctx.deviation(dict(stream='text', cls='unexpected-file-rename'), dict(source=m['source'], renames=m['renames']),
                           'rename of a variable announces file renames')
         if m['back_exc']:
-            ctx.deviation(dict(stream='text', exc=m['back_exc']['exc'], site=m['back_exc']['site'], reason=reason(m['idx'] if 'idx' in m else i)),
+            ctx.deviation(dict(stream='text', exc=m['back_exc']['exc'], site=m['back_exc']['site'], reason=reason(m['idx'])),
                           dict(source=m['source'], occurrence=m['occurrence'], error=m['back_exc']), 'renaming back raised')
         elif m['back'] is not None and m['back'] != m['source']:
             ctx.deviation(dict(stream='text', cls='roundtrip', reason=reason(m['idx']), refs_are_variable=refs_ok),
